@@ -291,7 +291,7 @@ def witnesses(ctx, targets, regenerate):
                 raise vp.ToolError(f"witness target {t} is unreachable")
             out[t] = prog
             if t in cache and [strip(e) for e in cache[t]] != [strip(e) for e in prog]:
-                ctx.note(f"witness {t}: TLC's behaviour differs from the cached one (both are valid inputs)")
+                pass    # BFS with several workers may return another shortest behaviour: equally valid input
     for t in targets:
         if t not in out:
             out[t] = cache[t]
